@@ -189,6 +189,10 @@ func runC13(c *Ctx) {
 		r.Check("R13.1", FuncName(reg), "register(unknown time) is refused with an error", reg.Pos(), why == "" && !out.accepted, why)
 	}
 
+	// ---- R13.7 the invoker runs every callback of the selected list
+	r.Rule("R13.7", "the invoker calls every callback of the list it selected: one call per element, no early exit")
+	c13InvokesAll(c, "R13.7")
+
 	// ---- R13.6 registration never appends into spare capacity of a list that copies of a cell may share
 	r.Rule("R13.6", "callback lists, which by-value copies of a cell share, are extended by copy, never in place")
 	{
@@ -690,4 +694,43 @@ func regOutcomeOf(c *Ctx, reg *ssa.Function, p *symPath) (regOutcome, string) {
 		return out, "appends and then returns an error"
 	}
 	return out, ""
+}
+
+// c13InvokesAll: in invokePropertyCallbacks, UpdateProperties is called on element i of the selected list for every
+// i (a full-range loop), unconditionally within the iteration, and nothing leaves the loop but its own test: a
+// failing callback must not keep the later ones (among them the renderers' own measuring callbacks) from running.
+func c13InvokesAll(c *Ctx, rule string) {
+	r := c.R
+	invoke := c.Func("", "invokePropertyCallbacks")
+	if invoke == nil {
+		return
+	}
+	n := 0
+	eachInstr(invoke, func(in ssa.Instruction) {
+		if m, _ := invokeMethod(in); m != "UpdateProperties" {
+			return
+		}
+		n++
+		cc := callCommon(in)
+		sl, idx := sectionOfAny(cc.Value)
+		full := sl != nil && isFullRangeIndex(c, invoke, idx, sl)
+		r.Check(rule, FuncName(invoke), fmt.Sprintf("callback call #%d is made for every element of the selected list", n), in.Pos(), full && !condInsideLoop(in.Block()), "the call is not on element i of a loop over the whole list, or is conditional within the iteration")
+		hdr := innermostLoopHeader(in.Block())
+		if hdr == nil {
+			return
+		}
+		bad := ""
+		for _, b := range invoke.Blocks {
+			if b == hdr || !hdr.Dominates(b) || !blockReach(b, nil)[hdr] {
+				continue
+			}
+			for _, s := range b.Succs {
+				if !hdr.Dominates(s) || !(s == hdr || blockReach(s, nil)[hdr]) {
+					bad = c.Pos(b.Instrs[len(b.Instrs)-1].Pos())
+				}
+			}
+		}
+		r.Check(rule, FuncName(invoke), fmt.Sprintf("nothing but exhaustion of the list ends the loop around callback call #%d", n), in.Pos(), bad == "", "the loop is left early at "+bad+": callbacks registered later (a renderer's own, say) are skipped after an earlier one fails")
+	})
+	r.Floor(rule, "callback invocations in the invoker", n, 1)
 }
